@@ -66,9 +66,19 @@ class Func:
 
 
 def _set_parents(tree: ast.AST) -> None:
-    for node in ast.walk(tree):
-        for child in ast.iter_child_nodes(node):
+    """parent links plus ``seq``: the node's position in a pre-order walk, i.e. textual order *after* inlining (inlined statements keep
+    the helper's line numbers for reporting and for the type facts, so line numbers must not be used to order statements)."""
+    n = 0
+    stack = [tree]
+    tree.seq = 0  # type: ignore[attr-defined]
+    while stack:
+        node = stack.pop()
+        n += 1
+        node.seq = n  # type: ignore[attr-defined]
+        children = list(ast.iter_child_nodes(node))
+        for child in children:
             child.parent = node  # type: ignore[attr-defined]
+        stack.extend(reversed(children))
 
 
 class Repo:
@@ -78,6 +88,12 @@ class Repo:
         self.funcs: Dict[str, Func] = {}
         self.classes: Dict[str, ClassInfo] = {}
         self._func_of_node: Dict[int, Func] = {}
+        self.inline_log: List[str] = []
+        self.inline_failed: List[str] = []
+        self.known_functions = None
+        if os.environ.get("SA_NO_INLINE") != "1":
+            from . import inline
+            self.known_functions = inline.load_known()
         h = hashlib.sha256()
         pkg_root = os.path.join(root, PKG)
         if not os.path.isdir(pkg_root):
@@ -98,10 +114,17 @@ class Repo:
             h.update(b"\0")
             src = raw.decode("utf-8")
             tree = ast.parse(src, filename=rel)
-            _set_parents(tree)
             modname = rel[:-3].replace(os.sep, ".")
             if modname.endswith(".__init__"):
                 modname = modname[: -len(".__init__")]
+            if self.known_functions is not None:
+                from . import inline
+                n, log, failed = inline.apply(tree, modname, self.known_functions)
+                self.inline_log.extend(log)
+                self.inline_failed.extend(failed)
+                if n:
+                    _drop_fully_inlined(tree, modname, self.known_functions, self.inline_log)
+            _set_parents(tree)
             mod = Module(rel, modname, src, tree)
             self.modules[modname] = mod
             self._index(mod)
@@ -180,6 +203,30 @@ class Repo:
             if m.tree is cur:
                 return m
         raise AnchorMissing("node without module")
+
+
+def _drop_fully_inlined(tree: ast.Module, modname: str, known, log: List[str]) -> None:
+    """Remove the definition of a new helper once no reference to it is left (every call site was expanded)."""
+    def refs(name: str, is_method: bool) -> int:
+        n = 0
+        for x in ast.walk(tree):
+            if is_method and isinstance(x, ast.Attribute) and x.attr == name:
+                n += 1
+            if not is_method and isinstance(x, ast.Name) and x.id == name:
+                n += 1
+        return n
+    for s in list(tree.body):
+        if isinstance(s, (ast.FunctionDef, ast.AsyncFunctionDef)) and f"{modname}.{s.name}" not in known and refs(s.name, False) == 0:
+            tree.body.remove(s)
+            log.append(f"dropped fully inlined helper {modname}.{s.name}")
+        elif isinstance(s, ast.ClassDef):
+            cq = f"{modname}.{s.name}"
+            if cq not in {k.rsplit(".", 1)[0] for k in known}:
+                continue
+            for m in list(s.body):
+                if isinstance(m, (ast.FunctionDef, ast.AsyncFunctionDef)) and f"{cq}.{m.name}" not in known and refs(m.name, True) == 0:
+                    s.body.remove(m)
+                    log.append(f"dropped fully inlined helper {cq}.{m.name}")
 
 
 def span(node: ast.AST) -> Tuple[int, int, int, int]:
